@@ -42,7 +42,7 @@ class Ctx:
         self.max_dev = {}
         self.known = [k for k in load_known() if k.get("property") == pid and k.get("status") == "known"]
         self.quick = tier == "quick"
-        self.write_evidence = True
+        self.write_evidence = os.environ.get("GBV_NO_EVIDENCE") != "1"
 
     # ---------------------------------------------------------------- TLC bookkeeping
     def add_tlc(self, name, res):
@@ -72,9 +72,10 @@ class Ctx:
                 if k["id"] not in [h[0] for h in self.known_hits]:
                     self.known_hits.append((k["id"], k["what"]))
                 return False
-        os.makedirs(os.path.join(REPLAYS, self.pid), exist_ok=True)
+        rdir = REPLAYS if self.write_evidence or os.environ.get("GBV_NO_EVIDENCE") != "1" else os.path.join(tlc.BUILD, "replays_scratch")
+        os.makedirs(os.path.join(rdir, self.pid), exist_ok=True)
         blob = json.dumps(replay, sort_keys=True)
-        path = os.path.join(REPLAYS, self.pid, hashlib.sha1(blob.encode()).hexdigest()[:12] + ".json")
+        path = os.path.join(rdir, self.pid, hashlib.sha1(blob.encode()).hexdigest()[:12] + ".json")
         with open(path, "w") as fh:
             json.dump({"property": self.pid, "key": key, "message": message, "replay": replay}, fh, indent=1)
         self.violations.append((key, message, path))
